@@ -10,6 +10,14 @@ correspondence: kernels of TerminalExpr(LogicalExpr(form, D), D.logical_domain) 
                 det(Jr^T Jr) of THAT patch's mapping), the integrand by dividing two lowered kernels
 oracle        : explicit polynomial / catalogue mappings, tangent vectors by sympy.diff, Gram determinant, region list
                 computed from the case description alone
+interface family (props/C04if.py, impl/C04if_impl.py): bilinear / linear forms over an interface of a two- / three-patch domain with
+                DIFFERENT mappings per patch (symbolic, identity / affine / polar with matched parametrisation, orientation -1)
+                whose integrand contains derivatives of restricted functions (grad.grad, grad.n, dx_i, second derivatives, jump /
+                avg / Dn, restrictions of compound expressions).  ORACLE-ONLY on this side (decisions.oracle_only_interface): explicit
+                matched maps F_minus, F_plus, four different polynomials for u-, u+, v-, v+, every kernel (same-side boundary kernels
+                and the mixed InterfaceExpressions with their tags) evaluated at the two logical points of one physical point and
+                compared with (part of the integrand) x (surface element); the model of the transformed integrand is C03's
+                (Model/LogicalIfM.v, theorem C03_interface_sound), tied to the code by C03's own interface family.
 """
 import copy
 import json
@@ -659,6 +667,11 @@ def main(run, replay=None):
         "test/trial functions, grad.grad) by dividing two lowered kernels.",
         "Interface integrals: the two parametrisations are assumed to coincide on the interface (the library's own assumption); "
         "cross terms and the minus piece use the minus mapping, the plus piece the plus mapping.",
+        "Interface integrals whose integrand contains derivatives of restricted functions (interface_derivative_family) are decided "
+        "by the independent two-point oracle only (decisions.oracle_only_interface): no per-case Coq comparison on the C04 side; the "
+        "transformation of such integrands is modelled and proved in C03 (Model/LogicalIfM.v, C03_interface_sound) and tied to the "
+        "code there.  Findings of this family that are not yet in known_findings.json are matched through PROPOSED_KNOWN in "
+        "tools/props/C04.py.",
         "tequiv=false / a time-out of the normaliser is 'not proved': decided by the numeric oracle.",
     ]
     return run.finish(cov, assumptions)
